@@ -66,6 +66,34 @@ def corrupt_contains(run):
     return None
 
 
+def corrupt_get_batch(run):
+    """get_batch reports a record that is there as absent"""
+    for e in run:
+        if e.get("op") == "get_batch" and e.get("ok"):
+            for g in e["r"]:
+                if g["some"]:
+                    g["some"] = False
+                    return run
+    return None
+
+
+def corrupt_remove_batch_count(run):
+    for e in run:
+        if e.get("op") == "remove_batch" and e.get("ok"):
+            e["n"] = e["n"] + 1
+            return run
+    return None
+
+
+def corrupt_iter_ids(run):
+    """iter_ids lists an id that was never handed out"""
+    for e in run:
+        if e.get("op") == "iter_ids":
+            e["r"] = e["r"] + [123456]
+            return run
+    return None
+
+
 def corrupt_put_id(run):
     """a put reports the id of a record that is still live (id handed out twice)"""
     live = []
@@ -170,6 +198,9 @@ def run(ctx):
     ctx.selftest_corrupt(TRACE, plain, corrupt_len, "len() answer changed by +1")
     ctx.selftest_corrupt(TRACE, plain, corrupt_contains, "contains() answer negated")
     ctx.selftest_corrupt(TRACE, plain, corrupt_put_id, "put reports the id of a record that is still live")
+    ctx.selftest_corrupt(TRACE, plain, corrupt_get_batch, "get_batch reports a live record as absent")
+    ctx.selftest_corrupt(TRACE, plain, corrupt_remove_batch_count, "remove_batch count changed by +1")
+    ctx.selftest_corrupt(TRACE, plain, corrupt_iter_ids, "iter_ids lists an id never handed out")
     keyed = _first_file_with(b1files, lambda h: h.get("keyed") is True)
     if keyed:
         ctx.selftest_corrupt(TRACE, keyed, corrupt_key_answer, "digest returned by get_by_key changed by one")
@@ -184,7 +215,8 @@ def run(ctx):
     nontrivial = 0
     vacuous = []
     known, differs = 0, 0
-    refusals = {"put": 0, "remove": 0, "build": 0}
+    refusals = {"put": 0, "remove": 0, "build": 0, "remove_batch": 0}
+    batch_ops = {"get_batch": 0, "remove_batch_ok": 0, "iter_ids": 0}
     for name, d in sorted(s1.get("subjects", {}).items()):
         b = s2.get("subjects", {}).get(name, {})
         cov["subjects"][name] = {"b1": d, "b2": b}
@@ -194,6 +226,9 @@ def run(ctx):
             refusals["put"] += x.get("put_refused", 0)
             refusals["remove"] += x.get("remove_refused", 0)
             refusals["build"] += x.get("build_refused", 0)
+            refusals["remove_batch"] += x.get("remove_batch_refused", 0)
+            for k in batch_ops:
+                batch_ops[k] += x.get(k, 0)
         stored_something = d.get("put_ok", 0) + d.get("build_ok", 0) + b.get("put_ok", 0) > 0
         read_something = d.get("get_ok", 0) + b.get("get_ok", 0) > 0
         if stored_something and read_something:
@@ -204,6 +239,7 @@ def run(ctx):
     cov["distinct_nontrivial"] = nontrivial
     cov["vacuous_subjects"] = vacuous
     cov["refusals"] = refusals
+    cov["batch_and_iteration_events"] = batch_ops
     cov["puts_with_observable_stored_size"] = known
     cov["puts_whose_stored_size_differs_from_payload"] = differs
     cov["fraction_stored_size_differs"] = round(differs / known, 4) if known else None
@@ -213,7 +249,9 @@ def run(ctx):
                    "over 3 abstract records, generated by TLC from MC_BlobStoreGen with the abstract state after every step, executed "
                    "on every mutable subject (store type x config preset x wrapper stack) under 4 concretisations of the records "
                    "(empty/1 byte, equal-length, compressible text, 64 KiB compressible + 64 KiB random); B1: seeded random histories per "
-                   "subject (put, put_batch, remove, get, contains, size, len, clear, save->load / reopen, keyed put/get/prefix), fills of "
+                   "subject (put, put_batch, remove, remove_batch, get, get_batch, iter_ids, contains, size, len, clear, save->load / reopen, keyed "
+                   "put/get/prefix; with deliberately placed read -> remove_batch -> read sequences; B2 removes go through remove_batch on every "
+                   "other history), fills of "
                    "0..129 records, and bulk builds of 0,1,2,63..65,127..129,255..257,511..513 records x 6 record-length profiles for every "
                    "builder-made store; every event validated by TLC against BlobStore.tla.  distinct = (subject, history, concretisation) executions of B2 plus "
                    "(subject, run) pairs of B1, for subjects with at least one successful store and one successful read; subjects that never stored anything readable are listed as "
